@@ -157,10 +157,50 @@ func (b *brainStream) Send(r *proto.WatchResponse) error {
 // leader installs and whether the node already reported itself leader when it was installed.
 type campaignBackend struct {
 	backend.Backend
+	lock     resourcelock.Interface // when set: the lock handed to the elector (slowget=1)
 	isLeader func() bool
 	lastSet  uint64
 	sets     int32
 	early    int32
+}
+
+func (c *campaignBackend) GetResourceLock() resourcelock.Interface {
+	if c.lock != nil {
+		return c.lock
+	}
+	return c.Backend.GetResourceLock()
+}
+
+// slowGetLock: every Get that follows a successful Create / Update of this candidate takes `d` longer - the order of the
+// elector's two goroutines on a networked engine: the started-leading callback consults Describe() BEFORE the renew loop's
+// first poll has re-read the record
+type slowGetLock struct {
+	resourcelock.Interface
+	wrote int32
+	d     time.Duration
+}
+
+func (l *slowGetLock) Get() (*resourcelock.LeaderElectionRecord, error) {
+	if atomic.LoadInt32(&l.wrote) == 1 {
+		time.Sleep(l.d)
+	}
+	return l.Interface.Get()
+}
+
+func (l *slowGetLock) Create(r resourcelock.LeaderElectionRecord) error {
+	err := l.Interface.Create(r)
+	if err == nil {
+		atomic.StoreInt32(&l.wrote, 1)
+	}
+	return err
+}
+
+func (l *slowGetLock) Update(r resourcelock.LeaderElectionRecord) error {
+	err := l.Interface.Update(r)
+	if err == nil {
+		atomic.StoreInt32(&l.wrote, 1)
+	}
+	return err
 }
 
 func (c *campaignBackend) SetCurrentRevision(r uint64) {
@@ -899,6 +939,18 @@ func (s *backendSuite) do(t []string) string {
 		ident := opts["id"]
 		b2 := s.newBackend(ident)
 		cb := &campaignBackend{Backend: b2}
+		if opts["slowget"] == "1" {
+			cb.lock = &slowGetLock{Interface: b2.GetResourceLock(), d: 400 * time.Millisecond}
+		}
+		if opts["released"] == "1" {
+			// the previous leader RELEASED the lock (client-go's release() under ReleaseOnCancel writes a record without
+			// a holder): the take-over is an Update over a holder-less record
+			now := time.Now().UTC().Format(time.RFC3339)
+			rb := s.inner.BeginBatchWrite()
+			rb.Put([]byte(string(unhx(s.opts["prefix"]))+"/election"),
+				[]byte(`{"holderIdentity":"","leaseDurationSeconds":1,"acquireTime":"`+now+`","renewTime":"`+now+`","leaderTransitions":1}`), 0)
+			_ = rb.Commit(ctx)
+		}
 		started := make(chan struct{})
 		var mc metrics.Metrics = getMetrics()
 		if opts["f"] == "tso2" {
